@@ -285,7 +285,7 @@ func runReg(c caseIn) *caseOut {
 				r[cnum(t.ConnID)] = true
 			}
 		default:
-			for k := range created {
+			for k := 1; k < 64; k++ { // the id universe of the generated cases
 				if sm.GetControlConnection(cid(k)) != nil {
 					r[k] = true
 				}
@@ -328,9 +328,6 @@ func runReg(c caseIn) *caseOut {
 					err = errors.New("empty id")
 				}
 			}
-			if id != 0 {
-				created[id] = at
-			}
 			after := keys()
 			if err != nil {
 				res = 1
@@ -361,6 +358,9 @@ func runReg(c caseIn) *caseOut {
 						}
 					}
 				}
+			}
+			if id != 0 { // only now: the eviction check above must see the stamps as they were before this call
+				created[id] = at
 			}
 		} else {
 			id := op[1]
@@ -746,7 +746,6 @@ func runMapSeq(c caseIn) *caseOut {
 		if res == 3 { // OnClosed runs after UnregisterTunnel; give the release a moment to land before sampling
 			waitFor(func() bool { return h.VerifActiveConnCount() <= live })
 		}
-		out.Outcomes = append(out.Outcomes, res)
 		out.Counts = append(out.Counts, [2]int{h.VerifActiveConnCount(), live})
 		if live > out.MaxSeen {
 			out.MaxSeen = live
@@ -756,6 +755,7 @@ func runMapSeq(c caseIn) *caseOut {
 		}
 	}
 	out.Final = live
+	out.Outcomes = state // per arrival: 1 live, 2 refused, 3 closed
 	for _, lc := range conns {
 		lc.Close()
 	}
